@@ -110,4 +110,44 @@ theorem disconnected_gets_nothing (b : Bus) (c : ConnId) (x : Conn) (hx : b.conn
   have : y ∈ ((releaseAll ({ bus := clearRules (gcRules b x) c } : Tx) c x.owned.reverse).bus.conns.filter (·.id != c)) := hy
   simpa [bne_iff_ne] using (List.mem_filter.mp this).2
 
+/-! ### rules that name a well-known name -/
+
+/-- **`sender='name'` means "sent by the name's present owner"**: a rule naming a sender matches a message from connection `c`
+    only if `c` is the primary owner of that name at that moment - standing in the name's queue is not enough. -/
+theorem sender_rule_needs_the_owner (b : Bus) (c : ConnId) (a : Option ConnId) (m : Msg) (r : MatchRule) (n : Bytes)
+    (hr : r.sender = some n) (hm : ruleMatches r (matchCtx b (some c) a m) = true) : b.primary? n = some c := by
+  unfold ruleMatches at hm
+  simp only [Bool.and_eq_true] at hm
+  have hs : senderOK r (matchCtx b (some c) a m) = true := hm.1.1.1.2
+  unfold senderOK at hs
+  rw [hr] at hs
+  simpa [matchCtx] using hs
+
+/-- a connection that merely waits for the name (it is in the queue, somebody else is first) never satisfies such a rule -/
+theorem waiter_does_not_match_sender_rule (b : Bus) (c o : ConnId) (a : Option ConnId) (m : Msg) (r : MatchRule) (n : Bytes)
+    (hr : r.sender = some n) (ho : b.primary? n = some o) (hne : o ≠ c) : ruleMatches r (matchCtx b (some c) a m) = false := by
+  cases h : ruleMatches r (matchCtx b (some c) a m) with
+  | false => rfl
+  | true =>
+    have := sender_rule_needs_the_owner b c a m r n hr h
+    rw [ho] at this
+    exact absurd (Option.some.inj this) hne
+
+/-- likewise `destination='name'` (an eavesdropping rule): the message must be addressed to the name's present owner -/
+theorem destination_rule_needs_the_owner (b : Bus) (s : Option ConnId) (a : ConnId) (m : Msg) (r : MatchRule) (n : Bytes)
+    (hr : r.dest = some n) (hm : ruleMatches r (matchCtx b s (some a) m) = true) : b.primary? n = some a := by
+  unfold ruleMatches at hm
+  simp only [Bool.and_eq_true] at hm
+  have hd : destOK r (matchCtx b s (some a) m) = true := hm.1.1.2
+  unfold destOK at hd
+  rw [hr] at hd
+  simp only [matchCtx] at hd
+  cases hmd : m.dest with
+  | none => rw [hmd] at hd; simp at hd
+  | some md =>
+    rw [hmd] at hd
+    by_cases he : r.eavesdrop = true
+    · simpa [he] using hd
+    · simp [he] at hd
+
 end Dbus.Props.C07Bus
